@@ -287,6 +287,32 @@ theorem prepare_harmless (s : St) (plan : Plan) (pruneObjs : List Live) : Harmle
   have h := fold_validation_harmless plan.valErrors s
   exact harmless_of_eq _ _ (by simp [prepare, h.1]) (by simp [prepare, h.2.1]) (by simp [prepare, h.2.2])
 
+theorem initialStatuses_harmless (s : St) : Harmless s (initialStatuses s) := by
+  unfold initialStatuses
+  split
+  · exact Harmless.refl s
+  · generalize s.run.initial = l
+    suffices ∀ (l : List Id) (t : St), Harmless s t → Harmless s (l.foldl (fun s id =>
+        match s.cl.find? id with
+        | none => s
+        | some l =>
+          if ({ s with cache := (id, { status := .current, hasRes := true, gen := l.gen, uid := l.uid }) :: s.cache } : St).run.opts.emitStatus
+          then ({ s with cache := (id, { status := .current, hasRes := true, gen := l.gen, uid := l.uid }) :: s.cache } : St).emit (.status id "Current")
+          else { s with cache := (id, { status := .current, hasRes := true, gen := l.gen, uid := l.uid }) :: s.cache }) t) from
+      this l s (Harmless.refl s)
+    intro l
+    induction l with
+    | nil => intro t ht; exact ht
+    | cons id ids ih =>
+      intro t ht
+      simp only [List.foldl_cons]
+      apply ih
+      split
+      · exact ht
+      · split
+        · exact Harmless.trans ht (harmless_of_eq _ _ rfl rfl rfl)
+        · exact Harmless.trans ht (harmless_of_eq _ _ rfl rfl rfl)
+
 /-- **C10 for a whole run**: with client or server dry-run, whatever the apply set, the options, the injected failures and
 the point of cancellation, the store after the run — every object and the stored inventory — is the store before it
 (after the environment's own deletions), and every mutating request of the run is a server-side-apply patch carrying the
@@ -308,15 +334,17 @@ theorem run_dry_changes_nothing (c : Cluster) (run : Run) (hd : run.opts.dry ≠
       simp only []
       have e2 := harmless_invRead s0 _ e1
       generalize hplan : buildPlan run applyMs pruneObjs _ _ = plan
-      by_cases hv : (!run.opts.skipInvalid && !plan.valErrors.isEmpty) = true
-      · simp only [hv, if_true]
-        exact Harmless.trans e2 (harmless_of_eq _ _ rfl rfl rfl)
-      · simp only [hv, if_false]
-        have e3 := Harmless.trans e2 (prepare_harmless r1.1.invRead.1 plan pruneObjs)
-        by_cases hc : run.cancel = .beforeSync
-        · simp only [hc, if_true]
-          exact Harmless.trans e3 (harmless_of_eq _ _ rfl rfl rfl)
-        · simp only [hc, if_false]
+      generalize (!run.opts.skipInvalid && !plan.valErrors.isEmpty) = b
+      cases b with
+      | true => simp only [if_true]; exact Harmless.trans e2 (harmless_of_eq _ _ rfl rfl rfl)
+      | false =>
+        simp only [Bool.false_eq_true, if_false]
+        have e3 := Harmless.trans (Harmless.trans e2 (prepare_harmless r1.1.invRead.1 plan pruneObjs)) (initialStatuses_harmless _)
+        generalize (decide (run.cancel = CancelAt.beforeSync) && decide (run.opts.dry = Dry.none)) = b2
+        cases b2 with
+        | true => simp only [if_true]; exact Harmless.trans e3 (harmless_of_eq _ _ rfl rfl rfl)
+        | false =>
+          simp only [Bool.false_eq_true, if_false]
           refine Harmless.trans e3 (runTasks_dry pruneObjs _ _ _ ?_ ?_)
           · unfold dryOf; rw [e3.run, hr0]; simpa using hd
           · rw [← hplan]; exact planTasks_dry_no_wait run _ _ _ _ _ hd
